@@ -573,7 +573,23 @@ def correspondence(ctx, exe, hists, nmax):
             script += [["SAVE", "k"], ["LOADNEW", "k"], ["SHOWSAVE"]]
         script += [["SAVE", "z"], ["LOAD", "z"]]
         cases.append(base_case(h["prog"], f"c{i}:{h['prog']['id']}", script, explore={"depth": 1, "max_paths": 4}))
-    res = engine_save.compare(cases, exe=exe, shard=5)
+    for c in cases:
+        c.setdefault("want_json", True)
+    impl = vlib.run_inkdrive(cases, exe)
+    res = engine_save.compare(cases, exe=exe, shard=5, impl=impl)
+    # are the hypotheses of the round-trip theorems met on the states the histories reach? (model only)
+    nprobe = min(len(cases), 24 if ctx.quick() else 200)
+    bits = {"states": 0, "wf_world_b": 0, "at_save_point": 0, "resave_hyp_b": 0, "no_alias_entry": 0}
+    try:
+        for tr in engine_save.wf_probe(cases[:nprobe], impl[:nprobe], shard=4):
+            for b in tr or []:
+                if len(b) == 4 and set(b) <= {"0", "1"}:
+                    bits["states"] += 1
+                    for k, x in zip(("wf_world_b", "at_save_point", "resave_hyp_b", "no_alias_entry"), b):
+                        bits[k] += x == "1"
+    except RuntimeError as e:
+        bits["error"] = str(e)[-300:]
+    ctx.coverage["theorem_hypotheses_on_reached_states"] = bits
     stat = {}
     mism = []
     for c, r in zip(cases, res):
